@@ -25,6 +25,7 @@ from harness.common.num import q, fbits, unfbits, unq
 
 PID = "C11"
 LEVEL = "translation_validation"
+EXTRA_PROP_FILES = ["C11b"]  # algebraic derivative semantics, signature rejection, inlining of user functions
 REQUIRED_THEOREMS = [
     "eval_compositional", "eval_subst", "alias_replacement_sound", "prepare_sound",
     "signature_order_irrelevant_for_named_env", "consts_as_partial_application", "exprFunction_spec",
@@ -34,6 +35,11 @@ REQUIRED_THEOREMS = [
     "getItem_map", "index_eval", "index_eval_item", "index_index", "index_diff", "index_rank", "index_function_eval",
     "chain_function_eval", "tensorFunction_component", "exprFunction_reprepared", "tensorFunction_reprepared", "checkSignature_prepared",
     "select_eval", "select_cmp_eval", "dependsOn_sound",
+    # Props/C11b.lean (theorem-gap round)
+    "diff_dual", "toPoly_eval", "diff_eq_polynomial_derivative", "diff_quotient_polynomial",
+    "checkSignature_iff", "checkSignature_rejects_undeclared", "checkSignature_rejects_two_names", "exprFunction_none_iff",
+    "withUser_inline", "exprFunction_withUser_inline", "exprFunction_idx", "exprFunction_idx_in_range", "callEnv_arg",
+    "callEnv_const", "eval_substIdx",
 ]
 RULE = ("programs = expression texts drawn by a type-directed (interval-typed) random generator over the whole "
         "grammar (numbers incl. decimal/scientific, variables, constants, indexed symbols, + - * / **, unary minus, "
